@@ -61,3 +61,21 @@ package smx509
 //@   loop 1 decreases len(signatureAlgorithmDetails) - rangeindex
 //@   heapnonnil
 //@   modifies nothing
+
+// the same dispatch for a caller-supplied digest: the digest length has to match the algorithm's
+// hash; the verifier gets exactly the given digest and signature
+//@ func (*Certificate).CheckSignatureWithDigest property C15
+//@   requires c != nil
+//@   bind after call VerifyPSS#1: RPSS := ite(isnil(result), 1, 0)
+//@   bind after call VerifyPKCS1v15#1: RP15 := ite(isnil(result), 1, 0)
+//@   bind after call VerifyASN1#1: RSM2 := ite(result, 1, 0)
+//@   bind after call VerifyASN1#2: REC := ite(result, 1, 0)
+//@   assert before call VerifyASN1#1: algo == SM2WithSM3 && pubKeyAlgo == ECDSA && sameslice(arg1, digest) && sameslice(arg2, signature) && (hashType == 0 ==> len(digest) == 32)
+//@   assert before call VerifyASN1#2: algo != SM2WithSM3 && pubKeyAlgo == ECDSA && sameslice(arg1, digest) && sameslice(arg2, signature)
+//@   assert before call VerifyPSS#1: pubKeyAlgo == RSA && sameslice(arg2, digest) && sameslice(arg3, signature)
+//@   assert before call VerifyPKCS1v15#1: pubKeyAlgo == RSA && sameslice(arg2, digest) && sameslice(arg3, signature)
+//@   ensures isnil(err) ==> RPSS == 1 || RP15 == 1 || RSM2 == 1 || REC == 1
+//@   loop 1 invariant -1 <= rangeindex && rangeindex < len(signatureAlgorithmDetails)
+//@   loop 1 decreases len(signatureAlgorithmDetails) - rangeindex
+//@   heapnonnil
+//@   modifies nothing
